@@ -15,6 +15,7 @@ import Driver.Adapter
 import Driver.Flow
 import Driver.CHelpers
 import Driver.Amp
+import Driver.Frame
 
 structure World where
   amp : Drv.AmpW := {}
@@ -92,6 +93,7 @@ def step (w : World) (line : String) : World × String :=
     else if t.startsWith "amp." then
       let (s, o) := Drv.stepAmp w.amp toks
       ({ w with amp := s }, o)
+    else if t.startsWith "frame." then (w, Drv.stepFrame toks)
     else (w, "bad-op")
 
 partial def loop (hin hout : IO.FS.Stream) (w : World) : IO Unit := do
